@@ -146,10 +146,21 @@ def interposed():
             tr = _CUR[0]
             if tr is not None:
                 tr.log(op='Start', Nmax=int(self.N_max), Ncache=int(self.N_cache), Nmin=int(self.N_min),
-                       reortho=bool(self.reortho), m=int(tr.m), conv=bool(self.P_tol > 0), psi0=tr.tok(self.psi0))
+                       reortho=bool(self.reortho), m=int(tr.m), conv=bool(self.P_tol > 0),
+                       shift=self.E_shift is not None, psi0=tr.tok(self.psi0))
             out = orig(self, *a, **kw)
             if tr is not None:
                 vec, n = (out[1], out[2]) if len(out) == 3 else (out[0], out[1])
+                # `E0 -= E_shift` is not interceptable; it is observed on the returned energy: the Ritz value Es[N-1, 0] of
+                # H + E_shift with / without the shift removed.  The event is placed where the statement is: after _build_krylov.
+                applied = True
+                if len(out) == 3 and self.E_shift is not None and self.E_shift != 0:
+                    raw = float(self.Es[int(n) - 1, 0])
+                    applied = bool(abs(out[0] - (raw - self.E_shift)) < abs(out[0] - raw))
+                pos = [i for i, e in enumerate(tr.events) if e['op'] == 'BuildDone']
+                if not pos:
+                    raise core.MachineryError('interposition: no BuildDone event recorded by run()')
+                tr.events.insert(pos[-1] + 1, dict(op='Unshift', shift=self.E_shift is not None, applied=applied))
                 tr.log(op='Return', N=int(n), res=tr.tok(vec))
             return out
         return run
@@ -198,7 +209,7 @@ def record(make_engine, run_args=(), m=0):
 # ------------------------------------------------------------------------------------------------
 # TLC trace validation
 # ------------------------------------------------------------------------------------------------
-CF_INVARIANTS = ['CacheBounded', 'CacheWindow', 'MatvecRight', 'RecurrenceComplete', 'SubtractRight',
+CF_INVARIANTS = ['EnergyUnshifted', 'CacheBounded', 'CacheWindow', 'MatvecRight', 'RecurrenceComplete', 'SubtractRight',
                  'CoefMatchesVector', 'EachKrylovIndexUsedOnce', 'ResultNormalised', 'StopRight']
 
 _RE_ACC = re.compile(r'<<"ACCEPT", (\d+)>>')
